@@ -392,4 +392,96 @@ theorem closeConn_comm (up : Bool) (a b : Option Err) (st : Stats) :
                 closeConn_other _ _ _ _ _ hsa hta, closeConn_other _ _ _ _ _ hsb htb]
               cases up <;> simp <;> (repeat' split) <;> simp_all
 
+
+/-! ### `halfPipe` / `Proxy` wrappers -/
+
+/-- a failing `SetDeadline` ends the direction (the deadline failure is the last call) and is logged once -/
+theorem halfPipe_logs_le (up : Bool) (st : Stats) (s : Script) :
+    (halfPipe up st s).logs ≤ 1 := by
+  unfold halfPipe; simp only; split <;> omega
+
+/-! ### `Proxy` -/
+
+/-- the dial error, if any, produces a non-empty statistic (true of every error `net.Dial` returns) -/
+def dialSane (i : ProxyIn) : Prop := ∀ e, i.dialErr = some e → ∃ t, e.stat = some t ∧ t ≠ ""
+
+theorem proxy_noPanic (i : ProxyIn) (h : dialSane i) : (proxy i).panicked = false := by
+  unfold proxy
+  cases hd : i.dialErr with
+  | none => simp only; split <;> rfl
+  | some e =>
+    obtain ⟨t, ht, hne⟩ := h e hd
+    simp [ht, hne]
+
+/-- **`Proxy` returns**: for every pair of scripts both directions release the wait group, so
+`wg.Wait()` does not block. -/
+theorem proxy_returns' (i : ProxyIn) (h : dialSane i) : (proxy i).returned = true ∧ (proxy i).wgPending = 0 := by
+  unfold proxy
+  cases hd : i.dialErr with
+  | none =>
+    simp only
+    split
+    · exact ⟨rfl, rfl⟩
+    · simp [halfPipe]
+  | some e =>
+    obtain ⟨t, ht, hne⟩ := h e hd
+    simp [ht, hne]
+
+/-- **The session gauge is balanced** on every path (dial failure, PROXY-header failure, relay). -/
+theorem proxy_gauge (i : ProxyIn) : (proxy i).gaugeAdds = (proxy i).gaugeRemoves := by
+  unfold proxy
+  cases hd : i.dialErr with
+  | none =>
+    simp only
+    split
+    · rfl
+    · simp [halfPipe]
+  | some e =>
+    simp only
+    cases e.stat with
+    | none => rfl
+    | some t => simp only; split <;> rfl
+
+/-- when the relay ran, both connections were closed (the client by both directions, the covert by
+both directions and once more by `Proxy` itself) -/
+theorem proxy_closes (i : ProxyIn) (h : (proxy i).started = true) :
+    2 ≤ (proxy i).clientCloses ∧ 2 ≤ (proxy i).covertCloses := by
+  unfold proxy at h ⊢
+  cases hd : i.dialErr with
+  | none =>
+    simp only [hd] at h ⊢
+    split
+    · rename_i hh; simp [hh] at h
+    · simp [halfPipe]
+  | some e =>
+    simp only [hd] at h
+    cases hs : e.stat with
+    | none => simp [hs, proxyPanic] at h
+    | some t =>
+      simp only [hs] at h
+      split at h <;> simp [proxyPanic] at h
+
+/-- **The totals `Proxy` reports are the bytes delivered in each direction.** -/
+theorem proxy_counts (i : ProxyIn) (u d : Out)
+    (hu : (proxy i).upOut = some u) (hdn : (proxy i).downOut = some d) :
+    (proxy i).bytesUp = u.delivered.length ∧ (proxy i).bytesDown = d.delivered.length := by
+  unfold proxy at hu hdn ⊢
+  cases hd : i.dialErr with
+  | none =>
+    simp only [hd] at hu hdn ⊢
+    split
+    · rename_i hh; simp [hh] at hu
+    · rename_i hh
+      simp only [hh, if_false] at hu hdn
+      cases hu; cases hdn
+      exact ⟨run_counted i.up, run_counted i.down⟩
+  | some e =>
+    simp only [hd] at hu
+    cases hs : e.stat with
+    | none => simp [hs, proxyPanic] at hu
+    | some t =>
+      simp only [hs] at hu
+      split at hu <;> simp [proxyPanic] at hu
+
+
 end CJ.HalfPipe
